@@ -17,7 +17,10 @@ pub mod c09;
 pub mod c10;
 pub mod c11;
 pub mod c12;
+// C13 / C14 use the std-only parts of the codecs (io::Read / io::Write entry points): std configuration only
+#[cfg(feature = "cfg-std")]
 pub mod c13;
+#[cfg(feature = "cfg-std")]
 pub mod c14;
 pub mod c15;
 pub mod c16;
@@ -56,7 +59,9 @@ pub fn modules() -> Vec<Module> {
         module!("C10", c10),
         module!("C11", c11),
         module!("C12", c12),
+        #[cfg(feature = "cfg-std")]
         module!("C13", c13),
+        #[cfg(feature = "cfg-std")]
         module!("C14", c14),
         module!("C15", c15),
         module!("C16", c16),
